@@ -72,9 +72,11 @@ fn random(a: &Args) {
     let small_pools: Vec<Arc<rayon::ThreadPool>> = [1usize, 2, 3, 4, 6, 8, 12, 16].iter().map(|n| pool(*n)).collect();
     let (mut nsys, mut nev, mut ndisp, mut max_held, mut releases, mut stalls, mut npan) = (0, 0, 0, 0, 0, 0, 0);
     let mut samples = Vec::new();
+    let mut prev: Option<(shredh::record::Recorded, shred::World)> = None;
     for k in 0..count {
         shredh::unwind::set(rng.gen_bool(a.num("punwind", 0.08)));
         shredh::record::set_early_pool(rng.gen_bool(0.3));
+        shredh::build::set_noise(if rng.gen_bool(0.2) { 0.06 } else { 0.0 });
         let mut cfg = base.clone();
         cfg.n_res = rng.gen_range(2..=base.n_res.max(2));
         // now and then a funnel program: groups filled to the capacity limit
@@ -155,11 +157,26 @@ fn random(a: &Args) {
             ndisp += 1;
         }
         nsys += prog.count_systems();
-        nev += r.rec.events.len();
-        write_events(&mut w, &r.rec.events);
         if samples.len() < 2 {
             samples.push(serde_json::to_value(&prog).unwrap());
         }
+        // the dispatcher of the PREVIOUS program is still alive (two dispatchers, two worlds at a time): now that
+        // this program has been built and run, the previous one is dispatched once more - nothing one dispatcher
+        // does may leak into another one
+        if let Some((mut pr, pw)) = prev.take() {
+            if rng.gen_bool(0.6) {
+                let opts = ExecOpts { mode: modes[k % modes.len()], gated: false, quiet_us, seed: rng.gen(), jitter_us: 0, panics: vec![], policy: 0 };
+                run_dispatch(&mut pr, &pw, &opts);
+                ndisp += 1;
+            }
+            nev += pr.rec.events.len();
+            write_events(&mut w, &pr.rec.events);
+        }
+        prev = Some((r, world));
+    }
+    if let Some((pr, _pw)) = prev.take() {
+        nev += pr.rec.events.len();
+        write_events(&mut w, &pr.rec.events);
     }
     w.flush().unwrap();
     println!(
@@ -251,6 +268,7 @@ fn lifecycle_cmd(a: &Args) {
     for k in 0..count {
         shredh::unwind::set(rng.gen_bool(a.num("punwind", 0.12)));
         shredh::record::set_early_pool(rng.gen_bool(0.3));
+        shredh::build::set_noise(if rng.gen_bool(0.2) { 0.06 } else { 0.0 });
         let mut cfg = base.clone();
         cfg.n_res = rng.gen_range(2..=base.n_res.max(2));
         let degenerate = rng.gen_bool(0.05);
@@ -320,6 +338,7 @@ fn async_cmd(a: &Args) {
     for k in 0..count {
         shredh::unwind::set(rng.gen_bool(a.num("punwind", 0.12)));
         shredh::record::set_early_pool(rng.gen_bool(0.3));
+        shredh::build::set_noise(if rng.gen_bool(0.2) { 0.06 } else { 0.0 });
         let mut cfg = base.clone();
         cfg.n_res = rng.gen_range(2..=base.n_res.max(2));
         let prog = gen_prog(&mut rng, &cfg, 0, "");
